@@ -425,7 +425,7 @@ def generate(ctx: Ctx) -> List[Case]:
     cases: List[Case] = []
     for i, rec in enumerate(CORPUS):
         cases.append(run_recipe(ctx, rec, f"corpus{i}"))
-    n = 60000 if ctx.thorough else 3000
+    n = 150000 if ctx.thorough else 3000
     if ctx.thorough:
         import multiprocessing as mp
         chunk = 3000
